@@ -416,6 +416,18 @@ static void scn_after_main(struct loopthr *lt)
 
 static int scn_next_phase(void) { return 0; }
 
+void hk_idle(void)
+{
+	int i;
+	if (atomic_load(&mt_phase))
+		return;
+	for (i = 0; i < MAXI; i++)
+		if (atomic_load(&is[i].state) == 1 && is[i].w_pre > is[i].last_entry_seq && is[i].w_post >= is[i].w_pre)
+			mon_viol("C10", "blocked-with-noted-delivery", g_method,
+				 "every thread is blocked and interest %d (signal %d, loop %d) was woken by a delivery after its last handler entry (%ld wakes, %ld runs)",
+				 i, signums[is[i].sidx], is[i].owner, (long)is[i].wakes, (long)is[i].entries);
+}
+
 static void scn_quiescent_check(void)
 {
 	int i;
